@@ -52,3 +52,64 @@ func TestGenC15Testdata(t *testing.T) {
 		write(n, x509.MarshalPKCS1PrivateKey(k), "RSA PRIVATE KEY", &k.PublicKey, k)
 	}
 }
+
+// TestGenC15Issued adds certificates that were not self-signed with the default digest: an ECDSA
+// user certificate issued by the RSA key rsa1, an RSA user certificate issued by the ECDSA key
+// ecdsa1, and a self-signed ECDSA certificate whose own signature uses SHA-384.  The algorithm a
+// certificate was signed with by its issuer is unrelated to the algorithm its subject signs with.
+// Run with VERIF_GEN_C15=2 go test -run TestGenC15Issued.
+func TestGenC15Issued(t *testing.T) {
+	if os.Getenv("VERIF_GEN_C15") != "2" {
+		t.Skip("generator only")
+	}
+	dir := filepath.Join("testdata", "c15")
+	load := func(name string) (*x509.Certificate, interface{}) {
+		cp, err := os.ReadFile(filepath.Join(dir, name+".cert.pem"))
+		if err != nil {
+			t.Fatal(err)
+		}
+		kp, _ := os.ReadFile(filepath.Join(dir, name+".key.pem"))
+		cb, _ := pem.Decode(cp)
+		kb, _ := pem.Decode(kp)
+		cert, err := x509.ParseCertificate(cb.Bytes)
+		if err != nil {
+			t.Fatal(err)
+		}
+		if kb.Type == "EC PRIVATE KEY" {
+			k, err := x509.ParseECPrivateKey(kb.Bytes)
+			if err != nil {
+				t.Fatal(err)
+			}
+			return cert, k
+		}
+		k, err := x509.ParsePKCS1PrivateKey(kb.Bytes)
+		if err != nil {
+			t.Fatal(err)
+		}
+		return cert, k
+	}
+	issue := func(name string, keyDER []byte, keyType string, pub interface{}, parent *x509.Certificate, parentKey interface{}, sigAlg x509.SignatureAlgorithm) {
+		tmpl := &x509.Certificate{SerialNumber: big.NewInt(int64(len(name)) + 2000), Subject: pkix.Name{CommonName: name},
+			NotBefore: time.Date(2020, 1, 1, 0, 0, 0, 0, time.UTC), NotAfter: time.Date(2120, 1, 1, 0, 0, 0, 0, time.UTC),
+			KeyUsage: x509.KeyUsageDigitalSignature, BasicConstraintsValid: true, SignatureAlgorithm: sigAlg}
+		if parent == nil {
+			parent = tmpl
+		}
+		der, err := x509.CreateCertificate(rand.Reader, tmpl, parent, pub, parentKey)
+		if err != nil {
+			t.Fatal(err)
+		}
+		_ = os.WriteFile(filepath.Join(dir, name+".cert.pem"), pem.EncodeToMemory(&pem.Block{Type: "CERTIFICATE", Bytes: der}), 0o664)
+		_ = os.WriteFile(filepath.Join(dir, name+".key.pem"), pem.EncodeToMemory(&pem.Block{Type: keyType, Bytes: keyDER}), 0o664)
+	}
+	rsaCA, rsaCAKey := load("rsa1")
+	ecCA, ecCAKey := load("ecdsa1")
+	ek, _ := ecdsa.GenerateKey(elliptic.P256(), rand.Reader)
+	eder, _ := x509.MarshalECPrivateKey(ek)
+	issue("ecdsa3_issued_by_rsa", eder, "EC PRIVATE KEY", &ek.PublicKey, rsaCA, rsaCAKey, 0)
+	rk, _ := rsa.GenerateKey(rand.Reader, 2048)
+	issue("rsa2_issued_by_ecdsa", x509.MarshalPKCS1PrivateKey(rk), "RSA PRIVATE KEY", &rk.PublicKey, ecCA, ecCAKey, 0)
+	ek2, _ := ecdsa.GenerateKey(elliptic.P256(), rand.Reader)
+	eder2, _ := x509.MarshalECPrivateKey(ek2)
+	issue("ecdsa4_selfsigned_sha384", eder2, "EC PRIVATE KEY", &ek2.PublicKey, nil, ek2, x509.ECDSAWithSHA384)
+}
